@@ -20,6 +20,7 @@ static void fill_tags(std::integer_sequence<int, I...>) {
 std::vector<Ran> g_ran;
 std::vector<std::uintptr_t> g_passed;
 bool g_follow_next = false;
+bool g_next_null = false;
 const char* const kShapeNames[] = {"V",    "P",   "NV",   "VN",   "VV", "PV", "VNV",
                                    "NVVN", "VVV", "VPNV", "VVVV", "PP"};
 
